@@ -1,0 +1,9 @@
+//go:build verif
+
+package mux
+
+// VerifAnimEncSplitAlpha exposes splitAlphaAndBitstream to the verification harness
+// (/verif, property C18: the ALPH prefix of a lossy animation frame's payload).
+func VerifAnimEncSplitAlpha(data []byte) (alphaData, bitstream []byte) {
+	return splitAlphaAndBitstream(data)
+}
